@@ -88,17 +88,18 @@ type AEvent struct {
 // AScenario is one world-A run
 type AScenario struct {
 	Profile       string     `json:"profile"`
-	Keys          []string   `json:"keys"`                                      // orchestration key fields
-	MetricKeys    []string   `json:"metric_keys,omitempty"`                     // metricKeys of the configuration (default: host)
-	Out2          bool       `json:"second_output,omitempty"`                   // a second output/buffer pair with different serialization settings (reference count 2 per record)
-	Umask         int        `json:"umask,omitempty"`                           // process umask (octal value as decimal int): 0, 027 or 077
-	UnescIn       bool       `json:"unescape_in_extractions,omitempty"`         // the unescape step also sits among the input extractions, where records queue up after it
-	AcceptErrs    []int      `json:"accept_errors_before_connection,omitempty"` // the accept(2) that would return the k-th connection first fails once with a transient error (EMFILE)
-	Fine          bool       `json:"fine_yields,omitempty"`                     // every larger function entry of the agent is a preemption point in this run
-	Datadog       bool       `json:"datadog_output,omitempty"`                  // a Datadog output/buffer pair whose consumer never takes a chunk: every chunk it makes ends up in its queue root
-	Poison        bool       `json:"poison_released_buffers,omitempty"`         // released backing buffers are overwritten with 0xEE (in the other runs they keep their bytes until reused, which is what lets a stale reference read ANOTHER record)
-	Tag           string     `json:"tag"`                                       // tag template
-	KeyTuples     [][]string `json:"key_tuples"`                                // values of (app, level-severity, pid) per tuple index; level is a severity number as string
+	Keys          []string   `json:"keys"`                                        // orchestration key fields
+	MetricKeys    []string   `json:"metric_keys,omitempty"`                       // metricKeys of the configuration (default: host)
+	Out2          bool       `json:"second_output,omitempty"`                     // a second output/buffer pair with different serialization settings (reference count 2 per record)
+	IDFault       int        `json:"id_file_write_fails_in_generation,omitempty"` // in this agent generation every write to a queue directory's .id file fails with ENOSPC (after the truncating open)
+	Umask         int        `json:"umask,omitempty"`                             // process umask (octal value as decimal int): 0, 027 or 077
+	UnescIn       bool       `json:"unescape_in_extractions,omitempty"`           // the unescape step also sits among the input extractions, where records queue up after it
+	AcceptErrs    []int      `json:"accept_errors_before_connection,omitempty"`   // the accept(2) that would return the k-th connection first fails once with a transient error (EMFILE)
+	Fine          bool       `json:"fine_yields,omitempty"`                       // every larger function entry of the agent is a preemption point in this run
+	Datadog       bool       `json:"datadog_output,omitempty"`                    // a Datadog output/buffer pair whose consumer never takes a chunk: every chunk it makes ends up in its queue root
+	Poison        bool       `json:"poison_released_buffers,omitempty"`           // released backing buffers are overwritten with 0xEE (in the other runs they keep their bytes until reused, which is what lets a stale reference read ANOTHER record)
+	Tag           string     `json:"tag"`                                         // tag template
+	KeyTuples     [][]string `json:"key_tuples"`                                  // values of (app, level-severity, pid) per tuple index; level is a severity number as string
 	Mode          string     `json:"mode"`
 	MaxDurMs      int        `json:"max_duration_ms"`
 	FlushMs       int        `json:"flush_ms"`
@@ -650,6 +651,18 @@ func (w *worldA) tweak(r *simrt.Rand, s *AScenario, end int) {
 		s.Events = nil
 		restarts(r.Pick(1, 3, 2))
 		s.FinalStop = r.Bool(20)
+		if r.Bool(20) {
+			// the disk is full while the second generation starts: the rewrite of the .id files fails. The upstream stays down
+			// through that generation, so the queues still matter at the third start.
+			s.IDFault = 2
+			s.Events = []AEvent{{AtMs: end + 500, Kind: "restart"}, {AtMs: end + 2500, Kind: "restart"}}
+			s.Upstream = nil
+			for i := 0; i < 40; i++ {
+				s.Upstream = append(s.Upstream, AUp{Kind: "refuse"})
+			}
+			s.HealAtMs = end + 4000
+			s.FinalStop = false
+		}
 	case "c07", "c07big":
 		n := 0
 		for ci := range s.Clients {
@@ -1250,6 +1263,15 @@ func (r *aRun) drive() {
 	simsignal.Reset()
 	r.fs.MkdirAllRaw(aBufRoot)
 	r.fs.Umask = uint32(s.Umask)
+	if s.IDFault > 0 {
+		r.fs.Hook = func(op simfs.Op) simfs.Action {
+			if op.Kind == "write" && op.Gen == s.IDFault && strings.HasSuffix(op.Path, "/.id") {
+				r.out.fault("id_file_write_enospc", 1)
+				return simfs.Action{Err: syscall.ENOSPC}
+			}
+			return simfs.Action{}
+		}
+	}
 	r.setKnobs()
 	r.writeConfig("")
 	if r.out.Harness != "" {
